@@ -1,8 +1,9 @@
 """C15 — failover: failing endpoints leave rotation, are probed, and come back.
 
 Spec: spec/Failover (Failover.tla: per-endpoint health record with clock-relative saturating ages, the
-manager's rotation / probe queue, actions Select / CallDone / CheckEp / CheckAll / Advance; the clauses of
-C15 as invariants and action properties over ghost variables).  MC_*.cfg exhaustive.
+manager's rotation / probe queue, the registry's list as installed, actions Select / CallDone / CheckEp / CheckAll /
+Advance / Refused / SetUp / Refresh; the clauses of C15 as invariants and action properties over ghost variables).
+MC_*.cfg exhaustive.
 Binding: B2 directed replay.  TLC produces behaviours of Failover -- Gen_Failover (biased random walks,
 -simulate) and Plan_Failover (an enumerated grid of plans that land exactly on the thresholds) -- each
 step with the model's projected state; harness/cmd/fodrive performs the steps on the REAL objects (a
@@ -11,6 +12,16 @@ servers that answer, stay silent, or stop listening and come back (a call to suc
 sent: connection refused), the status check driven through a test-only export, time advanced by shifting the
 adapters' timestamps) and compares the projection after every step and the server that received every call
 (for a refused call: the endpoint whose address the dial error names).
+Registry refreshes (action Refresh of Failover.tla): the registry of a behaviour answers the manager's own refresher
+(production path, a 4 ms ticker) with the same lists in a fresh random order until the behaviour has a Refresh step;
+then the active list gains / loses endpoints, is the same, names the same endpoints with another weight, is empty, moves
+endpoints to the inactive list and back --
+interleaved with blocking, probing and recovery.  After a refresh a blocked endpoint that is still listed must be out of
+rotation with its record and probe schedule untouched, healthy ones stay, new ones join.
+Answers that WITHDRAW an endpoint while an admission for its probe is queued are outside the statement; the model has
+them as coded under Stale = TRUE (plan family F14, MC_two_stale*): what the real code does there is recorded in the
+evidence (a probe admitted earlier still runs and its success puts the withdrawn endpoint into rotation, where no status
+check visits it), never reported.
 """
 import copy
 import json
@@ -72,9 +83,76 @@ def features(b):
     prev = list(range(1, n + 1))
     prev_st = None
     went_down = set()
+    prev = list(b.get("reg0", prev))
+    withdrawn_blocked, withdrawn, to_inactive_blocked = set(), set(), set()
     for s in b["steps"]:
         st = s["st"]
         ac = st["ac"]
+        if s["a"] == "Refresh":
+            f.add("refresh")
+            old = prev_st["rg"] if prev_st else b.get("reg0", list(range(1, n + 1)))
+            old_cr = prev_st["cr"] if prev_st else []
+            blocked = [e for e in old_cr if prev_st and not prev_st["h"][e - 1][0]]
+            new, ina = s["cands"], s["ina"]
+            if not new:
+                f.add("refresh_empty_answer")
+                if blocked:
+                    f.add("refresh_noop_while_blocked")
+            elif new == old and s["ok"]:
+                f.add("refresh_same_endpoints_other_weight")
+                if blocked:
+                    f.add("refresh_other_weight_while_blocked")       # the whole refresh runs, the endpoints are the same
+                if any(e in st["li"] for e in blocked):
+                    f.add("refresh_between_admission_and_probe")
+            elif new == old:
+                f.add("refresh_same_list")
+                if blocked:
+                    f.add("refresh_noop_while_blocked")
+            else:
+                f.add("refresh_list_changed")
+                gained, lost = [e for e in new if e not in old], [e for e in old if e not in new]
+                if gained:
+                    f.add("refresh_list_gains")
+                if lost:
+                    f.add("refresh_list_loses")
+                kept_blocked = [e for e in blocked if e in new and e in old]
+                if kept_blocked:
+                    f.add("refresh_changed_while_blocked_endpoint_listed")      # the class of C15-f
+                    if gained:
+                        f.add("refresh_gains_other_while_blocked")
+                    if lost:
+                        f.add("refresh_loses_other_while_blocked")
+                    if any(e in st["li"] for e in kept_blocked):
+                        f.add("refresh_between_admission_and_probe")
+                    if any(fl[0] in kept_blocked and fl[1] for fl in st["fl"]):
+                        f.add("refresh_during_probe_call")
+                if any(fl[0] != 0 for fl in st["fl"]):
+                    f.add("refresh_during_call")
+                for e in lost:
+                    if e not in ina:
+                        (withdrawn_blocked if e in blocked else withdrawn).add(e)
+                    if e in ina and e in blocked:
+                        to_inactive_blocked.add(e)
+                    if e in ina and e in old_cr:
+                        f.add("adapter_kept_on_inactive_list")
+                    if e not in ina and e in old_cr:
+                        f.add("adapter_dropped")
+                for e in gained:
+                    if e in withdrawn_blocked:
+                        f.add("blocked_withdrawn_and_named_again_joins")   # C15 is silent: the registry brought it back (observation)
+                    if e in withdrawn:
+                        f.add("endpoint_disappears_and_comes_back")
+                    if e in to_inactive_blocked and e not in ac:
+                        f.add("blocked_back_from_inactive_stays_out")
+                    if e not in old_cr and e in ac:
+                        f.add("new_endpoint_joins")
+                    withdrawn_blocked.discard(e), withdrawn.discard(e), to_inactive_blocked.discard(e)
+                if not ac:
+                    f.add("refresh_leaves_nothing_in_rotation")
+                if not prev and ac:
+                    f.add("refresh_ends_all_blocked")
+            prev, prev_st = ac, st
+            continue
         up = st.get("up", list(range(1, n + 1)))
         if s["a"] == "Down":
             f.add("endpoint_down")
@@ -97,7 +175,7 @@ def features(b):
         if s["a"] == "Check" and prev_st:
             for e in range(1, n + 1):
                 was, now = prev_st["h"][e - 1], st["h"][e - 1]
-                if e in prev_st["cr"] and not was[0] and was[5] >= 30 and e not in up and e not in st["li"]:
+                if e in prev_st["cr"] and e in st.get("rg", range(1, n + 1)) and not was[0] and was[5] >= 30 and e not in up and e not in st["li"]:
                     f.add("reconnect_failed_no_admission")
                 if was[0] and not now[0] and e not in up:
                     f.add("blocked_while_down")
@@ -184,6 +262,14 @@ def corrupt(b, kind):
             s["e"], s["cands"] = other, [other]
             st["fl"][s["c"] - 1][0] = other
             return c, i, ("target",)
+        if kind == "refresh-reinstates-blocked" and s["a"] == "Refresh" and i > 0 and s["cands"] and (s["cands"] != steps[i - 1]["st"]["rg"] or s["ok"]):
+            still = [e for e in blocked if e in st["rg"] and e in steps[i - 1]["st"]["rg"] and not steps[i - 1]["st"]["h"][e - 1][0]]
+            if still:
+                st["ac"] = sorted(set(st["ac"]) | {still[0]})
+                return c, i, ("active",)
+        if kind == "refresh-not-installed" and s["a"] == "Refresh" and i > 0 and st["rg"] != steps[i - 1]["st"]["rg"]:
+            st["rg"], st["ac"] = steps[i - 1]["st"]["rg"], steps[i - 1]["st"]["ac"]
+            return c, i, ("registry",)
         if kind == "time-not-passed" and s["a"] == "Advance" and s["d"] == 30 and blocked and st["h"][blocked[0] - 1][5] == 30:
             st["h"][blocked[0] - 1][5] = 0
             return c, i, ("lastBlockTime",)
@@ -193,7 +279,12 @@ def corrupt(b, kind):
 def run(ctx):
     ctx.level = "model_checking"
     ctx.assumptions = [
-        "keep-alive pings are off (the default keepAliveInterval = 0) except in the keep-alive plans (5 s interval); the registry keeps answering with the same endpoints, all on distinct hosts",
+        "keep-alive pings are off (the default keepAliveInterval = 0) except in the keep-alive plans (5 s interval); all endpoints are on distinct hosts",
+        "registry: answers are judged at the behaviour's Refresh steps (the manager's own refresher asks every 4 ms and finds the same lists, in "
+        "a fresh random order, in between); an answer that withdraws an endpoint from the active list while an admission for its probe is "
+        "queued or a call is in flight on it is not modelled (C15 does not speak about endpoints the registry has withdrawn); an endpoint "
+        "that was withdrawn altogether and is named again starts afresh, in rotation, also if it was blocked before -- as coded, the "
+        "statement is silent, counted as an observation",
         "virtual time: the adapters' timestamps are shifted backwards, which equals advancing the clock because the health logic only "
         "evaluates now - t >= threshold; a behaviour that takes more than 3.5 s of wall time is retried, never judged",
         "a failed call is a call whose context ends before the (silent) server answers: cancelled by the driver once the server has "
@@ -206,6 +297,9 @@ def run(ctx):
         "check's own ping (as coded: a sent and failed request), so an endpoint may leave rotation on failed pings alone",
         "the strategies' own choice among the endpoints in rotation is not modelled (Selector / HashRing do that): the driver positions "
         "the cursor / hash code / fallback seed so that the real choice follows the behaviour, and the model's candidate set is what is judged",
+        "once the registry has named endpoints with another weight than their adapters were created with, the activeEp slice is an "
+        "observation (a reinstated endpoint that is blocked again stays in it: addAliveEp takes the endpoint value from the adapter, checkStatus "
+        "compares with the registry's); the three selectors stay the reference for 'in rotation'",
         "time does not advance while a call is in flight (a call lasts at most its timeout, below the 5 s granularity of the model)",
     ]
     thorough = not ctx.quick
@@ -233,29 +327,46 @@ def run(ctx):
     # ---- 3. TLC produces the behaviours
     # (family, N, checks overlap calls)
     # F8 / F9: endpoints that stop listening and come back (Faults): refused calls, failed reconnects, refused probes, nothing listens
+    # F11 / F12 / F13 / F15: the registry is asked again (Refresh) while an endpoint is blocked / admitted / being probed / everything is
+    # blocked / names the same endpoints with another weight around a block - probe - reinstatement - block cycle; F16: answers that
+    # change nothing (empty -- also "with another weight" --, the same active list with another inactive list) do not even clean the cache
+    # (family, N, checks overlap calls, keep-alive, ping neutral, faults, registry's first list, registry's answers)
     plans = [("F1+F2+F3", 1, "FALSE"), ("F3+F4", 2, "FALSE"), ("F5", 3, "FALSE"), ("F6", 1, "TRUE"), ("F6", 2, "TRUE"),
-             ("F8", 1, "FALSE", "FALSE", "FALSE", "TRUE"), ("F8+F9", 2, "FALSE", "FALSE", "FALSE", "TRUE")]
+             ("F8", 1, "FALSE", "FALSE", "FALSE", "TRUE"), ("F8+F9", 2, "FALSE", "FALSE", "FALSE", "TRUE"),
+             ("F11+F13+F15+F16", 3, "FALSE", "FALSE", "FALSE", "FALSE", "1, 2", "AllAnswers"),
+             ("F12", 3, "TRUE", "FALSE", "FALSE", "FALSE", "1, 2", "AllAnswers")]
     # keep-alive configured (not the default): the same plans under the model of the code as it is (a sent ping is booked as a sent,
     # successful call) and under the model of the repair (a sent ping leaves the health record alone)
     # (F10: an endpoint that does not listen and gets no call any more -- only the pings of the status checks fail on it)
     ka_plans = [("F7+F10", 2, "FALSE", "TRUE", "FALSE", "TRUE"), ("F7+F10", 2, "FALSE", "TRUE", "TRUE", "TRUE")]
-    # (N, call slots, checks overlap calls, behaviours, depth[, endpoints stop listening and come back])
+    # the code as it is through registry answers that WITHDRAW an endpoint while an admission for its probe is queued (Stale = TRUE): the
+    # statement is silent about withdrawn endpoints, what the real code does there is recorded, not judged
+    stale_plans = [("F14", 3, "FALSE", "FALSE", "FALSE", "FALSE", "1, 2", "AllAnswers", "TRUE")]
+    # (N, call slots, checks overlap calls, behaviours, depth[, endpoints stop listening and come back[, registry's first list, answers]])
     sims = ctx.pick(
         [(1, "1", "FALSE", 100, 32), (2, "1", "FALSE", 250, 32), (3, "1", "FALSE", 250, 36), (4, "1", "FALSE", 100, 36),
          (2, "1, 2", "FALSE", 100, 32), (2, "1", "TRUE", 100, 32), (3, "1, 2", "TRUE", 100, 36),
          (1, "1", "FALSE", 60, 32, "TRUE"), (2, "1", "FALSE", 150, 36, "TRUE"), (3, "1", "FALSE", 100, 36, "TRUE"),
-         (2, "1, 2", "TRUE", 60, 36, "TRUE")],
+         (2, "1, 2", "TRUE", 60, 36, "TRUE"),
+         # the registry is asked again: its list gains / loses endpoints, is the same, is empty, has an inactive part
+         (3, "1", "FALSE", 200, 40, "FALSE", "1, 2", "AllAnswers"), (3, "1, 2", "TRUE", 100, 40, "TRUE", "1, 2, 3", "AllAnswers")],
         [(1, "1", "FALSE", 400, 44), (2, "1", "FALSE", 900, 44), (3, "1", "FALSE", 900, 48), (4, "1", "FALSE", 600, 48),
          (2, "1, 2", "FALSE", 300, 44), (3, "1, 2", "FALSE", 300, 48), (2, "1", "TRUE", 300, 44), (3, "1, 2", "TRUE", 300, 48),
          (4, "1, 2", "TRUE", 200, 48),
          (1, "1", "FALSE", 200, 44, "TRUE"), (2, "1", "FALSE", 600, 44, "TRUE"), (3, "1", "FALSE", 500, 48, "TRUE"),
-         (4, "1", "FALSE", 300, 48, "TRUE"), (2, "1, 2", "TRUE", 200, 44, "TRUE"), (3, "1, 2", "TRUE", 200, 48, "TRUE")])
+         (4, "1", "FALSE", 300, 48, "TRUE"), (2, "1, 2", "TRUE", 200, 44, "TRUE"), (3, "1, 2", "TRUE", 200, 48, "TRUE"),
+         (2, "1", "FALSE", 300, 48, "FALSE", "1", "AllAnswers"), (3, "1", "FALSE", 800, 52, "FALSE", "1, 2", "AllAnswers"),
+         (4, "1", "FALSE", 500, 52, "FALSE", "1, 2, 3", "AllAnswers"), (3, "1, 2", "TRUE", 300, 52, "FALSE", "1, 2, 3", "AllAnswers"),
+         (4, "1, 2", "TRUE", 200, 52, "FALSE", "1, 2", "ActiveAnswers"), (3, "1", "FALSE", 300, 52, "TRUE", "1, 2", "AllAnswers"),
+         (4, "1, 2", "TRUE", 200, 52, "TRUE", "1, 2, 3", "AllAnswers")])
 
     def gen_plan(p):
         fam, n, ov = p[:3]
         ka, pn, ft = (p[3], p[4], p[5]) if len(p) > 3 else ("FALSE", "FALSE", "FALSE")
+        reg0, ans = (p[6], p[7]) if len(p) > 6 else (", ".join(str(e) for e in range(1, n + 1)), "NoAnswers")
+        stale = p[8] if len(p) > 8 else "FALSE"
         r = tlc.run(ctx, SPEC, "Plan_Failover", cfg="Plan_run.cfg", workers=1, timeout=300, name="plan-%s-%d-%s" % (fam, n, pn),
-                    extra_files={"Plan_run.cfg": tmpl("Plan.cfg.tmpl", N=n, F=fam, OV=ov, KA=ka, PN=pn, FT=ft)})
+                    extra_files={"Plan_run.cfg": tmpl("Plan.cfg.tmpl", N=n, F=fam, OV=ov, KA=ka, PN=pn, FT=ft, REG0=reg0, ANS=ans, ST=stale)})
         if not r.success:
             raise Inconclusive("plan generation %s failed:\n%s" % (p, "\n".join(r.out.splitlines()[-30:])))
         out = behaviours_of(r.out, False)
@@ -267,14 +378,15 @@ def run(ctx):
         k, s = k_s
         n, calls, ov, num, depth = s[:5]
         ft = s[5] if len(s) > 5 else "FALSE"
+        reg0, ans = (s[6], s[7]) if len(s) > 6 else (", ".join(str(e) for e in range(1, n + 1)), "NoAnswers")
         r = tlc.run(ctx, SPEC, "Gen_Failover", cfg="Gen_run.cfg", workers=1, timeout=600, name="gen-%d" % k,
-                    extra_files={"Gen_run.cfg": tmpl("Gen.cfg.tmpl", N=n, CALLS=calls, OV=ov, KA="FALSE", D=depth, PB=85, PG=10, FT=ft)},
+                    extra_files={"Gen_run.cfg": tmpl("Gen.cfg.tmpl", N=n, CALLS=calls, OV=ov, KA="FALSE", D=depth, PB=85, PG=10, FT=ft, REG0=reg0, ANS=ans, ST="FALSE")},
                     simulate="num=%d" % num, depth=depth, seed=ctx.seed * 1000 + k)
         out = behaviours_of(r.out, True)
         if not out:
             raise Inconclusive("behaviour generation %s produced nothing:\n%s" % (s, "\n".join(r.out.splitlines()[-30:])))
         for b in out:
-            b["src"] = "walk N=%d slots={%s} overlap=%s faults=%s seed=%d" % (n, calls, ov, ft, ctx.seed * 1000 + k)
+            b["src"] = "walk N=%d slots={%s} overlap=%s faults=%s registry={%s}/%s seed=%d" % (n, calls, ov, ft, reg0, ans, ctx.seed * 1000 + k)
         return out, r
 
     scripts = []
@@ -282,6 +394,7 @@ def run(ctx):
     with ThreadPoolExecutor(max_workers=4) as ex:
         pf = [ex.submit(gen_plan, p) for p in plans]
         kf = [ex.submit(gen_plan, p) for p in ka_plans]
+        stf = [ex.submit(gen_plan, p) for p in stale_plans]
         sf = [ex.submit(gen_sim, ks) for ks in enumerate(sims)]
         nplans = 0
         for f in pf:
@@ -297,6 +410,11 @@ def run(ctx):
     ka_coded, r1 = kf[0].result()
     ka_fixed, r2 = kf[1].result()
     gen_states += r1.distinct + r2.distinct
+    stale_scripts = []
+    for f in stf:
+        out, r = f.result()
+        stale_scripts += out
+        gen_states += r.distinct
     ctx.log("behaviours: %d planned + %d walks + 2 x %d keep-alive plans" % (nplans, len(scripts) - nplans, len(ka_coded)))
     try:
         exe = build_f.result()
@@ -307,11 +425,15 @@ def run(ctx):
 
     # ---- 3b. exhaustive model checking of the design (runs beside the replay)
     cfgs = ctx.pick(["one_seq", "one_ovl", "two_quick", "one_keepalive", "one_keepalive_fixed", "one_faults", "one_keepalive_faults",
-                     "two_faults_quick"],
+                     "two_faults_quick", "two_refresh_quick", "two_stale"],
                     ["one_seq", "one_ovl", "two_seq", "two_ovl", "two_conc", "two_fine", "three", "one_keepalive", "one_keepalive_fixed",
-                     "keepalive", "one_faults", "one_keepalive_faults", "two_faults"])
+                     "keepalive", "one_faults", "one_keepalive_faults", "two_faults",
+                     "two_refresh_quick", "two_refresh", "two_refresh_ovl", "two_refresh_faults", "three_refresh", "two_stale", "two_stale_rest"])
     # the model of the code AS IT IS with keep-alive configured must exhibit the recorded deviation, and nothing else
     expect_broken = {"one_keepalive": "AllFailingLeavesAlways", "keepalive": "AllFailingLeaves"}
+    # the model of the code AS IT IS through answers that withdraw an endpoint with a queued admission must exhibit the recorded deviation
+    # (an endpoint the registry does not name in rotation), and, without that invariant, nothing else (two_stale_rest)
+    expect_inv_broken = {"two_stale": "RotationIsRegistered"}
     mc_pool = ThreadPoolExecutor(max_workers=ctx.pick(3, 2))
     mc_futs = {c: mc_pool.submit(tlc.run, ctx, SPEC, "MC_Failover", cfg="MC_%s.cfg" % c, workers=4, timeout=ctx.pick(300, 840),
                                  name="mc-" + c, coverage=False) for c in cfgs}
@@ -325,7 +447,13 @@ def run(ctx):
             "check_during_call", "healthy_endpoint_in_probe_queue",
             # endpoints that stop listening and come back
             "endpoint_down", "endpoint_back", "connection_lost", "refused_call", "refused_probe", "refused_fallback_call", "refused_first_use",
-            "strategy_choice_refused", "reconnect_failed_no_admission", "blocked_while_down", "reinstated_after_coming_back", "nothing_listens"]
+            "strategy_choice_refused", "reconnect_failed_no_admission", "blocked_while_down", "reinstated_after_coming_back", "nothing_listens",
+            # the registry is asked again
+            "refresh_same_list", "refresh_same_endpoints_other_weight", "refresh_other_weight_while_blocked", "refresh_empty_answer", "refresh_noop_while_blocked", "refresh_list_gains", "refresh_list_loses",
+            "refresh_changed_while_blocked_endpoint_listed", "refresh_gains_other_while_blocked", "refresh_loses_other_while_blocked",
+            "refresh_between_admission_and_probe", "refresh_during_probe_call", "refresh_during_call", "adapter_kept_on_inactive_list",
+            "adapter_dropped", "endpoint_disappears_and_comes_back", "blocked_back_from_inactive_stays_out", "new_endpoint_joins",
+            "refresh_leaves_nothing_in_rotation", "refresh_ends_all_blocked", "blocked_withdrawn_and_named_again_joins"]
     missing = [x for x in need if feats.get(x, 0) < 3]
     if missing:
         raise Inconclusive("generated behaviours never exercise %s (vacuous replay)" % missing)
@@ -336,6 +464,8 @@ def run(ctx):
     res_coded = replay(ctx, exe, ka_coded, "ka-coded", timeout_every=0, keepalive_ms=5000)
     res_fixed = replay(ctx, exe, ka_fixed, "ka-fixed", timeout_every=0, keepalive_ms=5000)
     ka = judge_keepalive(ctx, ka_coded, res_coded, ka_fixed, res_fixed)
+    res_stale = replay(ctx, exe, stale_scripts, "stale", timeout_every=0)
+    stale_obs = judge_stale(ctx, stale_scripts, res_stale)
     judged = counts.get("ok", 0) + counts.get("truncated", 0) + counts.get("diverged", 0)
     not_judged = len(scripts) - judged
     diverging = bool(ctx.violations)
@@ -349,7 +479,7 @@ def run(ctx):
     selftest = {}
     bad_scripts, expect = [], []
     for kind in ("blocked-claimed-in-rotation", "failure-not-counted", "refusal-not-counted", "probe-admission-dropped",
-                 "reinstatement-denied", "call-elsewhere", "time-not-passed"):
+                 "reinstatement-denied", "call-elsewhere", "time-not-passed", "refresh-reinstates-blocked", "refresh-not-installed"):
         for i in okidx:
             if scripts[i].get("overlap"):
                 continue
@@ -362,6 +492,8 @@ def run(ctx):
             selftest[kind] = "no candidate behaviour"
     if "refusal-not-counted" in selftest and not diverging:
         raise Inconclusive("binding self-test: no replayed behaviour with a refused call to corrupt")
+    if "refresh-reinstates-blocked" in selftest and not diverging:
+        raise Inconclusive("binding self-test: no replayed behaviour with a registry refresh past a blocked endpoint to corrupt")
     if len(bad_scripts) < 4 and not diverging:
         raise Inconclusive("binding self-test: too few corruptible behaviours: %s" % selftest)
     # (when the real code diverges on most behaviours there may be nothing clean left to corrupt: the divergences are the verdict)
@@ -378,6 +510,16 @@ def run(ctx):
     mc, mc_states, mc_trans = {}, 0, 0
     for c, f in mc_futs.items():
         r = f.result()
+        if c in expect_inv_broken:
+            if r.success or r.inv_violated != [expect_inv_broken[c]] or r.prop_violated:
+                raise Inconclusive("MC_%s: the model of the code as it is (Stale) should violate exactly %s:\n%s"
+                                   % (c, expect_inv_broken[c], "\n".join(r.out.splitlines()[-40:])))
+            mc[c] = {"distinct": r.distinct, "generated": r.generated, "wall_s": round(r.wall, 1),
+                     "expected_counterexample": expect_inv_broken[c] + " violated (a probe admitted before the registry withdrew the endpoint "
+                                                "puts it into rotation)"}
+            mc_states += r.distinct
+            mc_trans += r.generated
+            continue
         if c in expect_broken:
             if r.success or r.prop_violated != [expect_broken[c]] or r.inv_violated:
                 raise Inconclusive("MC_%s: the model of keep-alive as coded should violate exactly %s:\n%s"
@@ -415,7 +557,7 @@ def run(ctx):
                                                       % fsample.get("src"), "script": fsample}] if fsample else []),
         "model_checking": mc,
         "mc_distinct_states": mc_states,
-        "properties_checked_by_tlc": PROPS + ["TypeOK", "RotationIsHealthy", "ProbeQueueSingle", "ProbesTargetBlocked (sequential configs)",
+        "properties_checked_by_tlc": PROPS + ["RefreshRespectsHealth (refresh configs)"] + ["TypeOK", "RotationIsHealthy", "ProbeQueueSingle", "ProbesTargetBlocked (sequential configs)",
                                               "FailuresCounted"],
         "directed_replay": {
             "behaviours": len(scripts), "planned": nplans, "random_walks": len(scripts) - nplans,
@@ -426,13 +568,18 @@ def run(ctx):
             "timeout_mode_behaviours": sum(1 for r in res if r["mode"] == "timeout"),
         },
         "keep_alive_configured": ka,
+        "registry_withdraws_endpoint_with_queued_probe (code as it is, statement silent)": stale_obs,
         "selftest_corrupted_projections": selftest,
         "observations": {
             "probe_calls_closer_than_30s_although_admissions_are_not": close_calls,
             "healthy_endpoint_in_probe_queue_behaviours (checks overlapping calls)": feats.get("healthy_endpoint_in_probe_queue", 0),
             "activeEp_differs_from_selectors_steps (real code, overlap behaviours)": stats.get("obs_activeEp_differs_from_selectors", 0),
             "duplicate_in_activeEp_steps (real code)": stats.get("obs_duplicate_in_activeEp", 0),
+            "activeEp_keeps_blocked_endpoint_after_weight_change_steps (real code; selectors correct, no call goes there)":
+                stats.get("obs_activeEp_differs_from_selectors_after_weight_change", 0),
             "unread_timestamp_differs_steps": stats.get("obs_unread_age_differs", 0),
+            "blocked_endpoint_withdrawn_by_the_registry_and_named_again_joins_rotation_behaviours": feats.get("blocked_withdrawn_and_named_again_joins", 0),
+            "registry_refreshes_performed (real code)": stats.get("refreshes", 0),
             "note": "C15 is judged on probe admissions (>= 30 s apart in model and code); with sparse traffic two probe calls can be closer. "
                     "When a status check runs during a probe call whose admission waited >= 30 s, the endpoint is admitted again and, once "
                     "reinstated, is still queued for a probe: its next success resets the counters again and adds it to activeEp twice "
@@ -440,11 +587,11 @@ def run(ctx):
         },
         "evaluations": judged,
         "distinct_nontrivial": len(scripts),
-        "rule": "TLC-generated behaviours of Failover (enumerated threshold plans F1-F6, F8-F9 + seeded biased random walks over 1-4 endpoints, 1-2 "
+        "rule": "TLC-generated behaviours of Failover (enumerated threshold plans F1-F6, F8-F9, F11-F13, F15-F16 + seeded biased random walks over 1-4 endpoints, 1-2 "
                 "concurrent calls, with and without status checks during calls, with and without endpoints that stop listening and come "
-                "back) replayed step by step on the real ServantProxy / "
+                "back, with and without a registry whose answers change) replayed step by step on the real ServantProxy / "
                 "endpointManager / AdapterProxy; after every step the projection (status, counters, ages, activeEp, members of the three "
-                "selectors, probe queue and its guard set, in-flight targets) is compared; a divergence counts only if it reproduces 3 times",
+                "selectors, probe queue and its guard set, in-flight targets, the registry's list as installed) is compared; a divergence counts only if it reproduces 3 times",
         "exhaustive": False,
     }
 
@@ -502,6 +649,35 @@ def judge_keepalive(ctx, coded, res_coded, fixed, res_fixed):
                             "keep-alive configured: real objects follow neither model at step %d: %s; expected %s, got %s"
                             % (bad["step"], bad.get("why"), bad.get("expected"), bad.get("got")),
                             {"kind": "replay", "keepalive": True, "script": fb, "result": bad})
+    return out
+
+
+STALE_BREAKS = ("withdrawn-endpoint-put-into-rotation-by-a-probe-admitted-earlier", "all-failing-withdrawn-endpoint-stays-in-rotation-unchecked")
+
+
+def judge_stale(ctx, scripts, res):
+    """Registry answers that withdraw an endpoint while an admission for its probe is queued.  C15 does not speak about endpoints
+    the registry has withdrawn: what the real code does is RECORDED (does it follow the model of the code as it is? through which
+    of the steps TLC marks?), never reported.  Breaks of the clauses C15 does state are judged as everywhere."""
+    out = {"plans": len(scripts), "follows_model_of_code_as_is": 0, "does_not_follow": 0, "marked_steps_followed": {}}
+    for b, r in zip(scripts, res):
+        if r["outcome"] in ("ok", "truncated"):
+            out["follows_model_of_code_as_is"] += 1
+            for i, br in broken_clauses(b, r["steps_done"]):
+                if br in STALE_BREAKS:
+                    out["marked_steps_followed"][br] = out["marked_steps_followed"].get(br, 0) + 1
+                    if br == STALE_BREAKS[1] and "sample" not in out:
+                        out["sample"] = {"what": "real objects follow this behaviour step by step: the registry withdraws an endpoint whose probe was "
+                                                 "admitted, the probe is still carried out and its success puts the endpoint into rotation; all its "
+                                                 "calls fail (5 in a row, 5 s) and the status check at step %d leaves it in rotation -- it only "
+                                                 "visits endpoints the registry names" % i,
+                                         "script": {k: v for k, v in b.items() if k != "plan"}}
+                else:
+                    ctx.violate("C15:clause-broken:%s" % br, "real failover objects follow, step by step, a behaviour that breaks C15 at step %d (%s)" % (i, br),
+                                {"kind": "replay", "script": b, "result": r})
+        else:
+            out["does_not_follow"] += 1
+            out.setdefault("first_not_followed", {k: v for k, v in r.items() if k != "stats"})
     return out
 
 
